@@ -10,7 +10,8 @@ TRUSTED = [
     "bn_smb_leg = Legendre symbol for every a and odd prime b",
     "inside the Mxp model the Montgomery reduction bn_mod_monty_comba and the conversions are taken at value level (x*R^-1 mod m for "
     "0 <= x < m*R, which holds at every call of the loops); their digit-level correctness is the Mod family's / C02's subject",
-    "class C in the Mxp family: bn_mxp_sim (compared with the specification only)",
+    "bn_mxp_sim (= bn_mxp_sim_few unrolled at n = 2) is class A as well (mxpSim, theorem mxp_sim_exact: signs of the exponents are ignored, "
+    "no zero-exponent exit, even modulus -> error); class C in the Mxp family: bn_mxp_sim_few for n != 2 and bn_mxp_sim_lot (not presented)",
 ]
 
 # odd primes for Legendre / CRT lines (all below 2^256 so that they fit RLC_BN_DIGS of both configurations)
@@ -27,6 +28,9 @@ CORPUS = [
     "nt_smb leg 6 3", "nt_smb leg 3 3", "nt_smb leg 5 1", "nt_smb leg 5 2", "nt_smb leg 5 0", "nt_smb leg -1 7", "nt_smb leg 5 -7", "nt_smb leg 5 8",
     "nt_smb leg e 7", "nt_smb leg 2 7", "nt_smb leg 3 7", "nt_smb leg 0 7", "nt_smb leg -7 7", "nt_smb leg 9 f",
     "nt_mxp_crt 5 3 3 7 b 0", "nt_mxp_crt 5 3 3 b 7 0", "nt_mxp_crt 5 3 3 7 7 0", "nt_mxp_crt 5 3 3 7 b 1", "nt_mxp_crt 5 0 0 7 b 0", "nt_mxp_crt 4d 3 3 7 b 0",
+    "nt_mxp_sim 2 3 5 2 7", "nt_mxp_sim 2 0 5 0 7", "nt_mxp_sim 2 0 5 0 8", "nt_mxp_sim 2 0 5 0 1", "nt_mxp_sim 2 3 5 0 7", "nt_mxp_sim 2 0 5 3 7",
+    "nt_mxp_sim 2 3 5 2 8", "nt_mxp_sim 2 3 5 2 0", "nt_mxp_sim 2 3 5 2 -7", "nt_mxp_sim 2 -3 5 2 7", "nt_mxp_sim 2 3 5 -2 7", "nt_mxp_sim -2 3 -5 3 7",
+    "nt_mxp_sim 7 3 5 2 7", "nt_mxp_sim e 1 15 1 7", "nt_mxp_sim 2 ff 5 1 7", "nt_mxp_sim 2 1 5 ff 7",
     "nt_mxp_crt 5 3 3 8 b 0", "nt_mxp_crt 5 3 3 7 a 0", "nt_mxp_crt 5 3 3 1 b 0", "nt_mxp_crt 5 3 3 7 1 0",
 ]
 
@@ -136,6 +140,32 @@ def gen(rng, w, cap, digs, n):
             a = rng.choice([f, f * (rng.below(1000) + 1), rng.below(m), m - 1, 1, 0, m, 2, -f, -2])
             e = -exponent(rng, rng.choice([1, 2, 5, 22, 33, 64]), rng.choice(KINDS))
             out.append("nt_mxp %s %s %s %s" % (v, hx(a), hx(e), hx(m)))
+    # 3b. simultaneous exponentiation: unequal lengths, zero exponents, equal exponents, complementary bit patterns, every modulus class
+    for _ in range(60):
+        m = modulus(rng, w, digs) if rng.chance(5, 6) else rng.choice([1, 2, 4, 6, 0, -3, (1 << w), modulus(rng, w, digs, odd=False)])
+        lb = rng.choice(lens[:14])
+        le = rng.choice([lb, lb, 1, 2, max(1, lb - 1), lb + 1, rng.choice(lens[:14])])
+        b = exponent(rng, lb, rng.choice(KINDS))
+        e = exponent(rng, le, rng.choice(KINDS))
+        j = rng.below(10)
+        if j == 0:
+            b = 0
+        elif j == 1:
+            e = 0
+        elif j == 2:
+            b = e = 0
+        elif j == 3:
+            e = b
+        elif j == 4:        # complementary: never both bits set
+            e = ((1 << lb) - 1) ^ b
+        elif j == 5:        # always both bits set
+            e = b = (1 << lb) - 1
+        elif j == 6 and rng.chance(1, 2):
+            b = -b
+        elif j == 6:
+            e = -e
+        bs = bases(rng, w, digs, m)
+        out.append("nt_mxp_sim %s %s %s %s %s" % (hx(rng.choice(bs)), hx(b), hx(rng.choice(bs)), hx(e), hx(m)))
     # 4. random lines
     for _ in range(n):
         k = rng.below(10)
